@@ -81,6 +81,10 @@ CONTENT = {
     "crlf--": b"\r\n--",
     "lookalike-mid": b"ab--" + B.encode() + b"--cd\r\n-" + B.encode(),      # the delimiter string, but never at a line start
     "dashes": b"--",
+    # lines that begin like the delimiter line but are not it
+    "lookalike-line": b"line1\r\n--" + B.encode() + b"XYZ\r\nline3",
+    "lookalike-only": b"--" + B.encode() + b"XYZ",
+    "lookalike-close": b"a\r\n--" + B.encode() + b"--X",
     "almost": b"x\r\n--" + B.encode()[:-1],
     "tail-cr": b"abc\r",
     "tail-crlf": b"abc\r\n",
@@ -354,6 +358,24 @@ def _job_roundtrip(job):
                 continue
             if size is not None and size != len(body):
                 part.violation("C19:size-differs", f"{spec}: size {size}, written {len(body)}", case)
+            # the other way to get the body out of the writer: as_bytes() on a fresh, equal writer
+            if spec[0] == "mp" and all(len(CONTENT.get(p[0], b"")) < 20000 for p in spec[1]):
+                try:
+                    mp2, _w2 = build(spec[1])
+                    t = loop.create_task(mp2.as_bytes())
+                    for _ in range(200):
+                        loop.drain(200)
+                        while loop.exec_jobs:
+                            loop.complete_exec_job(0)
+                        if t.done():
+                            break
+                    body2 = t.result()
+                except Exception as e:  # noqa: BLE001
+                    part.violation(f"C19:as_bytes-raises:{type(e).__name__}", f"{spec}: {e!r}", dict(case, api="as_bytes"))
+                else:
+                    got2 = run_reader(loop, mp.headers[hdrs.CONTENT_TYPE], body2, (), "read", 8192)
+                    part.count("executions")
+                    compare(part, f"{spec} via as_bytes()", want, got2, "as_bytes", dict(case, cuts=[], api="as_bytes", chunk=0))
             ctype = mp.headers[hdrs.CONTENT_TYPE] if spec[0] != "form" else f"multipart/form-data; boundary={B}"
             if spec[0] == "nested":
                 ctype = f"multipart/mixed; boundary={B}"
@@ -405,7 +427,7 @@ def part_specs(quick):
 def specs(quick):
     singles = part_specs(quick)
     out = [("mp", [s]) for s in singles]
-    core = [s for s in singles if s[0] in ("empty", "a", "crlf--", "lookalike-mid", "almost", "tail-cr", "lines", "8192", "boundary-at-chunk-edge") and not s[2]
+    core = [s for s in singles if s[0] in ("empty", "a", "crlf--", "lookalike-mid", "lookalike-line", "almost", "tail-cr", "lines", "8192", "boundary-at-chunk-edge") and not s[2]
             and s[1] in (None, "base64") and s[3] == "plain" and s[4] is None]
     out += [("mp", [a, b]) for a in core for b in core]
     # encoder state must not travel from one part to the next: every ordered pair of (transfer, content) encodings
@@ -561,9 +583,117 @@ def _job_limits(_job):
     return part
 
 
+# ---------------------------------------------------------------- the same bodies through Request.post()
+POST_FIELDS = {
+    # name: (content, transfer-encoding, filename)
+    "f64": (b"abcdef", "base64", "x.bin"),
+    "f64long": (bytes(range(256)) * 3, "base64", "y.bin"),
+    "fqp": (b"a=b caf\xc3\xa9 \r\nline two=\r\n", "quoted-printable", "q.txt"),
+    "t64": ("t\u00e9xt value", "base64", None),
+    "tqp": ("a=b;c d\u00e9", "quoted-printable", None),
+    "fplain": (b"\r\n--" + B.encode()[:-1] + b"\r\n", None, "p.bin"),
+    "tplain": ("plain", None, None),
+    "_charset_": ("iso-8859-1", None, None),              # the HTML default-charset field: first, consumed by the reader
+    "tlatin": (b"caf\xe9", None, None),                   # a text field in that charset
+}
+POST_WANT = {"tlatin": "caf\u00e9"}
+POST_FORMS = [["f64"], ["f64long"], ["fqp"], ["t64"], ["tqp"], ["f64", "tplain"], ["tqp", "f64"], ["fplain", "t64", "fqp"],
+              ["_charset_", "tlatin"], ["_charset_", "tlatin", "f64"]]
+
+
+def post_case(part, loop, names, cuts):
+    from aiohttp.test_utils import make_mocked_request
+
+    # (a "form-data" writer refuses transfer encodings - RFC 7578 4.7; the parts are written by a "mixed" writer and
+    # the body is received as multipart/form-data, which is what a client that does use them sends)
+    mp = MultipartWriter("mixed", boundary=B)
+    want = []
+    for n in names:
+        content, enc, fname = POST_FIELDS[n]
+        h = CIMultiDict()
+        if enc:
+            h[hdrs.CONTENT_TRANSFER_ENCODING] = enc
+        if n == "tlatin":
+            from aiohttp import payload as _payload
+            content_obj = _payload.StringPayload(content.decode("iso-8859-1"), encoding="iso-8859-1", content_type="text/plain", headers=h)
+        else:
+            content_obj = content
+        p = mp.append(content_obj, h)
+        p.set_content_disposition("form-data", name=n, **({"filename": fname} if fname else {}))
+        if n != "_charset_":
+            want.append((n, POST_WANT.get(n, content)))
+    body = serialize(loop, mp)
+    if cuts == "all":
+        cutsets = [()] + [(i,) for i in range(1, len(body))] + [tuple(range(1, len(body)))]
+    else:
+        cutsets = [tuple(cuts)]
+    for cs in cutsets:
+        proto = _Proto(loop)
+        stream = StreamReader(proto, 2 ** 16, loop=loop)
+        req = make_mocked_request("POST", "/", headers={"Content-Type": f"multipart/form-data; boundary={B}"}, payload=stream, loop=loop)
+
+        async def go():
+            data = await req.post()
+            out = []
+            for k in data:
+                v = data[k]
+                out.append((k, v if isinstance(v, str) else bytes(v) if isinstance(v, (bytes, bytearray)) else v.file.read()))
+            return out
+
+        t = loop.create_task(go())
+        prev = 0
+        for c in list(cs) + [len(body)]:
+            if body[prev:c]:
+                stream.feed_data(body[prev:c])
+            prev = c
+            loop.drain(2000)
+            while loop.exec_jobs:
+                loop.complete_exec_job(0)
+                loop.drain(2000)
+        stream.feed_eof()
+        loop.drain(2000)
+        while loop.exec_jobs and not t.done():
+            loop.complete_exec_job(0)
+            loop.drain(2000)
+        part.count("executions")
+        part.count("transitions", len(cs) + 1)
+        case = {"kind": "post", "fields": list(names), "cuts": list(cs)}
+        label = f"post() of form {names} cuts={list(cs)[:3]}{'...' if len(cs) > 3 else ''}"
+        if not t.done():
+            t.cancel()
+            loop.drain(20)
+            part.violation("C19:post:hangs", f"{label}: post() does not return", case)
+            return
+        try:
+            got = t.result()
+        except BaseException as e:  # noqa: BLE001
+            part.violation(f"C19:post:raises:{type(e).__name__}", f"{label}: {e!r}", case)
+            return
+        norm = [(k, v if isinstance(v, (bytes, str)) else bytes(v)) for k, v in got]
+        if norm != want:
+            bad = next((k for (k, v), (_k2, w) in zip(norm, want) if v != w), "count")
+            part.violation(f"C19:post:content-differs:{POST_FIELDS.get(bad, (0, 'count'))[1] or 'plain'}",
+                           f"{label}: field {bad}: got {dict(norm).get(bad)!r:.80}, written {dict(want).get(bad)!r:.80}", case)
+            return
+        part.outcome(("post", tuple(names), len(norm)))
+
+
+def _job_post(names):
+    part = Part()
+    loop = VLoop().hold()
+    try:
+        post_case(part, loop, names, "all")
+        part.state(("post", tuple(names)))
+    finally:
+        loop.finish()
+    return part
+
+
 def _dispatch(job):
     if job[0] == "rt":
         return _job_roundtrip(job[1])
+    if job[0] == "post":
+        return _job_post(job[1])
     if job[0] == "term":
         return _job_term(job[1])
     return _job_limits(job)
@@ -585,6 +715,7 @@ def run(ctx):
     tb = term_bodies()
     jobs += [("term", [b]) for b in tb]
     jobs += [("limits",)]
+    jobs += [("post", names) for names in POST_FORMS]
     for part in ctx.pmap(_dispatch, jobs):
         ctx.merge(part)
     ctx.notes["roundtrip_specs"] = len(sp)
@@ -593,6 +724,14 @@ def run(ctx):
 
 def replay(case):
     k = case["kind"]
+    if k == "post":
+        part = Part()
+        loop = VLoop().hold()
+        try:
+            post_case(part, loop, case["fields"], case["cuts"])
+        finally:
+            loop.finish()
+        return part.violations
     if k == "roundtrip":
         spec = case["spec"]
 
